@@ -16,7 +16,10 @@ Templates == <<
   \* CriticMarkup inside CriticMarkup (the accept / reject passes edit the text in place, from the back)
   "a {~~ab~>x{++y++}z~~} b {++c{--d--}e++} f {==g{>>h<<}==} i",
   \* an outline as the library's own OPML export spells white space (read with the OPML import switched on): a character next to every reference
-  "<opml version=\"1.0\"><body><outline text=\"T\" _note=\"a&#9;b&#10;c&#13;d&amp;e\"/></body></opml>" >>
+  "<opml version=\"1.0\"><body><outline text=\"T\" _note=\"a&#9;b&#10;c&#13;d&amp;e\"/></body></opml>",
+  \* numeric character references that name no character (surrogates, beyond U+10FFFF, zero, non-characters) in text, destinations, titles, definitions: an
+  \* all-ASCII source is valid input whatever its references say
+  "[a](http://x/&#xD800;) &#xDFFF; &#55296; <http://x/&#xDC00;>", "![i](p&#xD800;.png \"t&#xDBFF;\") [r] &#x110000; &#0;\n\n[r]: http://y/&#xD900;&#xFFFE; \"T&#xD800;\"" >>
 VARIABLE c
 Pick(S) == IF Sim THEN {RandomElement(S)} ELSE S
 Cases == {[t |-> t, p |-> p, cp |-> n, cp2 |-> "", nl |-> nl] : t \in Pick(1 .. Len(Templates)), p \in 0 .. 90, n \in Pick(DOMAIN CPs), nl \in Pick(BOOLEAN)}
